@@ -73,27 +73,55 @@ pub fn replay(args: &Args) {
                 };
                 let dah = &sq.dah;
                 let committed: Vec<Vec<u8>> = (0..w).map(|col| sq.share_bytes(row, col)).collect();
-                let (got, same) = match catch(|| Row::decode(id, &bytes).and_then(|r| r.verify(id, dah).map(|_| r))) {
+                let observe = |decode_id: RowId| match catch(|| Row::decode(decode_id, &bytes).and_then(|r| r.verify(id, dah).map(|_| r))) {
                     Ok(Ok(r)) => ("accept".to_string(), r.shares.iter().map(|s| s.to_vec()).collect::<Vec<_>>() == committed),
                     Ok(Err(_)) => ("reject".to_string(), true),
                     Err(p) => (format!("panic: {p}"), true),
                 };
+                let wire = observe(id);
+                // Second observation point: Row::verify(id, dah) on a Row that was not decoded under the target id
+                // (decoded under the id of another row of the same half, which parses the shares the same way).
+                let other = if row < k { (row + 1) % k } else { k + (row - k + 1) % k };
+                let direct = observe(RowId::new(other as u16, sq.header.height()).unwrap());
+                for (path, (got, same)) in [("wire", wire), ("direct", direct)] {
                 let demand = if demand0 == "reject" && !sq.distinct { "either" } else { demand0 };
                 *by_width.entry(w).or_default() += 1;
-                let key = if demand != "either" { Some(format!("{ci}/{w}/{}", sc.name)) } else { None };
+                let key = if demand != "either" { Some(format!("{ci}/{w}/{}/{path}", sc.name)) } else { None };
                 sum.case("C05", key, || json!({"case": c, "width": w, "scale": sc.name, "got": got}));
                 let bad = got.starts_with("panic") || !same || (demand != "either" && got != demand);
                 if bad {
                     let gotk = if got.starts_with("panic") { panic_kind(&got) } else if !same { "accept-other-row".to_string() } else { got.clone() };
-                    let class = json!({"kind": "row", "cls": cls, "mut": mut0, "side": side, "demand": demand, "got": gotk,
+                    let class = json!({"kind": "row", "path": path, "cls": cls, "mut": mut0, "side": side, "demand": demand, "got": gotk,
                                        "half": if i < kabs { "data" } else { "parity" }});
                     let ck = class.to_string();
                     *classes.entry(ck.clone()).or_default() += 1;
-                    viols.push((ck, json!({"why": format!("width {w} ({}) row {row} {side}/{label} {cls}/{}: demanded {demand}, code says {got}{}", sc.name, c["mut"],
+                    viols.push((ck, json!({"why": format!("[{path}] width {w} ({}) row {row} {side}/{label} {cls}/{}: demanded {demand}, code says {got}{}", sc.name, c["mut"],
                                                         if same { "" } else { " and the decoded row is not the committed row" }),
                                            "class": class, "case": c, "width": w, "scale": sc.name, "got": got})));
-                } else if w == wabs && sq.distinct && got != predict {
+                } else if path == "wire" && w == wabs && sq.distinct && got != predict {
                     sum.drift("C05", json!({"case": c, "width": w, "got": got, "predict": predict}));
+                }
+                }
+                // and the in-memory rows of the square itself: Row::new(j).verify(id of row i) accepts iff j = i
+                if cls == "honest" && side == "left" {
+                    for j in 0..w {
+                        let r = Row::new(j as u16, &sq.eds).unwrap();
+                        let got = match catch(|| r.verify(id, dah)) {
+                            Ok(Ok(())) => "accept",
+                            Ok(Err(_)) => "reject",
+                            Err(_) => "panic",
+                        };
+                        let equal = (0..w).all(|col| sq.share_bytes(j, col) == committed[col]);
+                        let want = if j == row { "accept" } else if equal { got } else { "reject" };
+                        sum.case("C05", Some(format!("mem/{ci}/{w}/{}/{j}", sc.name)), || json!({"row_new": j, "verify_for": row, "width": w, "got": got}));
+                        if got != want {
+                            let class = json!({"kind": "row", "path": "Row::new", "demand": want, "got": got, "same_row": j == row});
+                            let ck = class.to_string();
+                            *classes.entry(ck.clone()).or_default() += 1;
+                            viols.push((ck, json!({"why": format!("width {w}: Row::new({j}).verify(id of row {row}): demanded {want}, code says {got}"),
+                                                   "class": class, "case": c, "width": w, "scale": sc.name, "got": got})));
+                        }
+                    }
                 }
             }
         }
